@@ -383,6 +383,9 @@ def shard_wrappers(shard):
         if "orders" in ents:
             ents.remove("orders")
             ents += orders(len(basis))
+        if "orders2" in ents:          # reversed and one rotation
+            ents.remove("orders2")
+            ents += orders(len(basis))[-1:] + (orders(len(basis))[2:3] if len(basis) > 2 else [])
         for entry in ents:
             check_entry(part, entry, basis)
             part.add(1, 0)
@@ -566,10 +569,14 @@ def run(ctx, only=None):
                     ("orbit representatives of the three-element bases", reps3, light)]
         else:
             rs2 = set(reps2)
+            qpool = set(triple_pool(True))
             plan = [("orbit representatives of Bases(2,4)", reps2, full),
                     ("all other members of Bases(2,4)", [b for b in core2 if b not in rs2],
                      WRAP_LIGHT + ["strategy", "cli0", "orders"]),
-                    ("orbit representatives of the three-element bases", reps3, light)]
+                    ("orbit representatives of the three-element bases over S3 + 0123/3210/1302/2031",
+                     [b for b in reps3 if set(b) <= qpool], light),
+                    ("orbit representatives of the other three-element bases",
+                     [b for b in reps3 if not set(b) <= qpool], WRAP_LIGHT + ["orders2"])]
         for _what, bs, ents in plan:
             shards += [(c, ents) for c in chunked(bs, 2)]
         ctx.pmap(shard_wrappers, shards)
